@@ -5,7 +5,7 @@ import logging
 
 from .util import (Source, print_dump, get_marked_atribute, split_pkg,
                    get_marked_name, get_marked_import, get_all_usages, join_pkg,
-                   marked, unmark)
+                   marked, unmark, SOURCE_MARK)
 from .evaluator import EvalCtx
 from .nast import extract_scope
 
@@ -119,15 +119,25 @@ def location(project, source, position, filename=None, debug=False):
         if node:
             result = ctx.declarations(node, [])
 
+    ln, col = position
+
+    def real_loc(name):
+        # positions come from the text with the cursor marker spliced in: what
+        # follows the cursor on its own line sits further right there than in the buffer
+        l, c = name.declared_at
+        if l == ln and c > col and name.filename == source.filename:
+            c -= len(SOURCE_MARK)
+        return _loc((l, c), name.filename)
+
     locs = []
     for r in result:
         # builtins and compiled modules have no source position to go to
         if isinstance(r, list):
-            alts = [_loc(n.declared_at, n.filename) for n in r if hasattr(n, 'declared_at')]
+            alts = [real_loc(n) for n in r if hasattr(n, 'declared_at')]
             if alts:
                 locs.append(alts)
         elif hasattr(r, 'declared_at'):
-            locs.append(_loc(r.declared_at, r.filename))
+            locs.append(real_loc(r))
 
     return locs
 
